@@ -526,60 +526,163 @@ theorem partition_spec_aux (box : Bound α) (all : List (List (Pt α))) : ∀ (o
 
 /-! ### addToMultiPolygon / addAll -/
 
-theorem addTo_total (mp : List (List (List (Pt α)))) (ring : List (Pt α)) (h : ∀ pg ∈ mp, pg ≠ []) :
-    ∃ out, addToMultiPolygon mp ring = .ok out ∧ out.length = mp.length ∧
-      ∀ pg ∈ out, pg ∈ mp ∨ ∃ pg0 ∈ mp, pg = pg0 ++ [ring] := by
+/-- the replacement test of the `addToMultiPolygon` loop: the polygon with this outer ring contains the
+    ring and is (by the vertex test) inside the best one so far -/
+def takeB (ring : List (Pt α)) (best : Option (Nat × List (Pt α))) (outer : List (Pt α)) : Bool :=
+  polygonContains outer ring &&
+    (match best with
+     | none => true
+     | some (_, bo) => polygonContains bo outer)
+
+theorem bestContainer_nil (ring : List (Pt α)) (i : Nat) (best : Option (Nat × List (Pt α))) :
+    bestContainer ring [] i best = .ok best := rfl
+
+theorem bestContainer_cons_nil (ring : List (Pt α)) (rest : List (List (List (Pt α)))) (i : Nat)
+    (best : Option (Nat × List (Pt α))) :
+    bestContainer ring ([] :: rest) i best = .panic "index out of range" := rfl
+
+theorem bestContainer_cons (ring outer : List (Pt α)) (holes : List (List (Pt α)))
+    (rest : List (List (List (Pt α)))) (i : Nat) (best : Option (Nat × List (Pt α))) :
+    bestContainer ring ((outer :: holes) :: rest) i best =
+      bestContainer ring rest (i + 1) (if takeB ring best outer then some (i, outer) else best) := rfl
+
+/-- the loop of `addToMultiPolygon` does not panic when every polygon has an outer ring -/
+theorem bestContainer_total (ring : List (Pt α)) : ∀ (mp : List (List (List (Pt α)))) (i : Nat)
+    (best : Option (Nat × List (Pt α))), (∀ pg ∈ mp, pg ≠ []) → ∃ b, bestContainer ring mp i best = .ok b := by
+  intro mp
   induction mp with
-  | nil => exact ⟨[], rfl, rfl, by simp⟩
+  | nil => intro i best _; exact ⟨best, rfl⟩
   | cons pg rest ih =>
+    intro i best h
     cases pg with
     | nil => exact absurd rfl (h [] List.mem_cons_self)
     | cons outer holes =>
-      rw [addToMultiPolygon]
-      split_ifs with hc
-      · refine ⟨_, rfl, by simp, ?_⟩
-        intro x hx
-        rcases List.mem_cons.1 hx with rfl | hx
-        · exact Or.inr ⟨_, List.mem_cons_self, rfl⟩
-        · exact Or.inl (List.mem_cons_of_mem _ hx)
-      · obtain ⟨out, h1, h2, h3⟩ := ih (fun x hx => h x (List.mem_cons_of_mem _ hx))
-        refine ⟨(outer :: holes) :: out, by simp [h1], by simp [h2], ?_⟩
-        intro x hx
-        rcases List.mem_cons.1 hx with rfl | hx
-        · exact Or.inl List.mem_cons_self
-        · rcases h3 x hx with h' | ⟨pg0, h', rfl⟩
-          · exact Or.inl (List.mem_cons_of_mem _ h')
-          · exact Or.inr ⟨pg0, List.mem_cons_of_mem _ h', rfl⟩
+      rw [bestContainer_cons]
+      exact ih _ _ (fun x hx => h x (List.mem_cons_of_mem _ hx))
+
+/-- what the loop of `addToMultiPolygon` returns: either the incoming `best` (no polygon passed the
+    replacement test), or the index and outer ring of a polygon `k` of the list whose outer ring contains
+    a vertex of the ring, and no later polygon passes the replacement test against it -/
+theorem bestContainer_spec (ring : List (Pt α)) : ∀ (mp : List (List (List (Pt α)))) (i : Nat)
+    (best b : Option (Nat × List (Pt α))), bestContainer ring mp i best = .ok b →
+    (b = best ∧ ∀ pg ∈ mp, ∃ outer holes, pg = outer :: holes ∧ takeB ring best outer = false) ∨
+    (∃ k outer holes, mp[k]? = some (outer :: holes) ∧ b = some (i + k, outer) ∧
+      polygonContains outer ring = true ∧
+      ∀ k' pg, k < k' → mp[k']? = some pg → ∃ o' hs, pg = o' :: hs ∧ takeB ring (some (i + k, outer)) o' = false) := by
+  intro mp
+  induction mp with
+  | nil =>
+    intro i best b h
+    rw [bestContainer_nil, Res.ok.injEq] at h
+    exact Or.inl ⟨h.symm, by simp⟩
+  | cons pg rest ih =>
+    intro i best b h
+    cases pg with
+    | nil => rw [bestContainer_cons_nil] at h; cases h
+    | cons outer holes =>
+      rw [bestContainer_cons] at h
+      rcases ih _ _ _ h with ⟨hb, hno⟩ | ⟨k, o, hs, hk, hb, hc, hlater⟩
+      · by_cases ht : takeB ring best outer = true
+        · rw [if_pos ht] at hb hno
+          refine Or.inr ⟨0, outer, holes, rfl, hb, ?_, ?_⟩
+          · simp only [takeB, Bool.and_eq_true] at ht
+            exact ht.1
+          · intro k' pg hk' hpg
+            cases k' with
+            | zero => exact absurd hk' (Nat.lt_irrefl 0)
+            | succ k' =>
+              rw [List.getElem?_cons_succ] at hpg
+              exact hno pg (List.mem_of_getElem? hpg)
+        · rw [if_neg ht] at hb hno
+          refine Or.inl ⟨hb, ?_⟩
+          intro pg hpg
+          rcases List.mem_cons.1 hpg with rfl | hpg
+          · exact ⟨outer, holes, rfl, by simpa using ht⟩
+          · exact hno pg hpg
+      · refine Or.inr ⟨k + 1, o, hs, by rw [List.getElem?_cons_succ]; exact hk, ?_, hc, ?_⟩
+        · rw [hb]; congr 2; omega
+        · intro k' pg hk' hpg
+          cases k' with
+          | zero => exact absurd hk' (Nat.not_lt_zero _)
+          | succ k' =>
+            rw [List.getElem?_cons_succ] at hpg
+            have e : i + (k + 1) = i + 1 + k := by omega
+            rw [e]
+            exact hlater k' pg (Nat.lt_of_succ_lt_succ hk') hpg
+
+theorem addTo_unfold (mp : List (List (List (Pt α)))) (ring : List (Pt α)) :
+    addToMultiPolygon mp ring = bestContainer ring mp 0 none >>= fun b =>
+      match b with
+      | none => pure mp
+      | some (i, _) => pure (mp.modify i (· ++ [ring])) := rfl
+
+/-- `addToMultiPolygon`, case by case: either no outer ring contains a vertex of the ring and nothing
+    changes, or the ring is appended to polygon `j`, whose outer ring contains one of its vertices, and
+    no later polygon both contains a vertex of the ring and has an outer vertex inside polygon `j`'s
+    outer ring (the scan keeps the innermost candidate) -/
+theorem addTo_spec (mp : List (List (List (Pt α)))) (ring : List (Pt α)) (out : List (List (List (Pt α))))
+    (h : addToMultiPolygon mp ring = .ok out) :
+    (out = mp ∧ ∀ pg ∈ mp, ∃ outer holes, pg = outer :: holes ∧ polygonContains outer ring = false) ∨
+    (∃ j outer holes, mp[j]? = some (outer :: holes) ∧ out = mp.modify j (· ++ [ring]) ∧
+      polygonContains outer ring = true ∧
+      ∀ k pg, j < k → mp[k]? = some pg → ∃ o' hs, pg = o' :: hs ∧
+        (polygonContains o' ring && polygonContains outer o') = false) := by
+  rw [addTo_unfold] at h
+  obtain ⟨b, hb, h⟩ := resD_bind_eq_ok h
+  rcases bestContainer_spec ring mp 0 none b hb with ⟨rfl, hno⟩ | ⟨k, outer, holes, hk, rfl, hc, hlater⟩
+  · simp only [resD_pure, Res.ok.injEq] at h
+    refine Or.inl ⟨h.symm, ?_⟩
+    intro pg hpg
+    obtain ⟨o, hs, e, ht⟩ := hno pg hpg
+    exact ⟨o, hs, e, by simpa [takeB] using ht⟩
+  · simp only [resD_pure, Res.ok.injEq, Nat.zero_add] at h
+    refine Or.inr ⟨k, outer, holes, hk, h.symm, hc, ?_⟩
+    intro k' pg hk' hpg
+    obtain ⟨o', hs, e, ht⟩ := hlater k' pg hk' hpg
+    exact ⟨o', hs, e, by simpa [takeB] using ht⟩
+
+theorem mem_modify_append {β : Type} (x : β) : ∀ (l : List (List β)) (j : Nat), ∀ pg ∈ l.modify j (· ++ [x]),
+    pg ∈ l ∨ ∃ pg0 ∈ l, pg = pg0 ++ [x] := by
+  intro l
+  induction l with
+  | nil => intro j pg hpg; simp at hpg
+  | cons a l ih =>
+    intro j pg hpg
+    cases j with
+    | zero =>
+      rw [List.modify_zero_cons] at hpg
+      rcases List.mem_cons.1 hpg with rfl | hpg
+      · exact Or.inr ⟨a, List.mem_cons_self, rfl⟩
+      · exact Or.inl (List.mem_cons_of_mem _ hpg)
+    | succ j =>
+      rw [List.modify_succ_cons] at hpg
+      rcases List.mem_cons.1 hpg with rfl | hpg
+      · exact Or.inl List.mem_cons_self
+      · rcases ih j pg hpg with h' | ⟨pg0, h', rfl⟩
+        · exact Or.inl (List.mem_cons_of_mem _ h')
+        · exact Or.inr ⟨pg0, List.mem_cons_of_mem _ h', rfl⟩
 
 theorem addTo_mem (mp : List (List (List (Pt α)))) (ring : List (Pt α)) : ∀ out,
     addToMultiPolygon mp ring = .ok out → ∀ pg ∈ out, pg ∈ mp ∨ ∃ pg0 ∈ mp, pg = pg0 ++ [ring] := by
-  induction mp with
-  | nil =>
-    intro out h
-    simp only [addToMultiPolygon, Res.ok.injEq] at h
-    subst h; simp
-  | cons pg rest ih =>
-    intro out h
-    cases pg with
-    | nil => simp [addToMultiPolygon] at h
-    | cons outer holes =>
-      rw [addToMultiPolygon] at h
-      split_ifs at h with hc
-      · simp only [Res.ok.injEq] at h
-        subst h
-        intro x hx
-        rcases List.mem_cons.1 hx with rfl | hx
-        · exact Or.inr ⟨_, List.mem_cons_self, rfl⟩
-        · exact Or.inl (List.mem_cons_of_mem _ hx)
-      · obtain ⟨out0, h1, h⟩ := resD_bind_eq_ok h
-        simp only [resD_pure, Res.ok.injEq] at h
-        subst h
-        intro x hx
-        rcases List.mem_cons.1 hx with rfl | hx
-        · exact Or.inl List.mem_cons_self
-        · rcases ih out0 h1 x hx with h' | ⟨pg0, h', rfl⟩
-          · exact Or.inl (List.mem_cons_of_mem _ h')
-          · exact Or.inr ⟨pg0, List.mem_cons_of_mem _ h', rfl⟩
+  intro out h pg hpg
+  rcases addTo_spec mp ring out h with ⟨rfl, _⟩ | ⟨j, _, _, _, rfl, _, _⟩
+  · exact Or.inl hpg
+  · exact mem_modify_append ring mp j pg hpg
+
+theorem addTo_total (mp : List (List (List (Pt α)))) (ring : List (Pt α)) (h : ∀ pg ∈ mp, pg ≠ []) :
+    ∃ out, addToMultiPolygon mp ring = .ok out ∧ out.length = mp.length ∧
+      ∀ pg ∈ out, pg ∈ mp ∨ ∃ pg0 ∈ mp, pg = pg0 ++ [ring] := by
+  obtain ⟨b, hb⟩ := bestContainer_total ring mp 0 none h
+  have hex : ∃ out, addToMultiPolygon mp ring = .ok out := by
+    rw [addTo_unfold, hb]
+    cases b with
+    | none => exact ⟨_, rfl⟩
+    | some p => exact ⟨_, rfl⟩
+  obtain ⟨out, ho⟩ := hex
+  refine ⟨out, ho, ?_, addTo_mem mp ring out ho⟩
+  rcases addTo_spec mp ring out ho with ⟨rfl, _⟩ | ⟨j, _, _, _, rfl, _, _⟩
+  · rfl
+  · exact List.length_modify _ _ _
 
 theorem addAll_cons (mp : List (List (List (Pt α)))) (r : List (Pt α)) (rings : List (List (Pt α))) :
     addAll mp (r :: rings) = addToMultiPolygon mp r >>= fun mp' => addAll mp' rings := rfl
